@@ -632,6 +632,56 @@ theorem link_roundtrip (lt : Point → Point → Bool) (hsym : ∀ x y : Point, 
   refine ⟨ks, ks, hks, by rw [← hk]; exact hks, ?_⟩
   exact stream_roundtrip (E ks) (D ks) junk (hc ks) (hl ks) c ws rs hroom
 
+/-! ### `transport.upgrade`: direction, dialed ID, self-reported ID -/
+
+/-- An admitted peer's presented identity is the address of the key that completed the
+handshake: `upgrade` admits a link only if the self-reported NodeInfo ID is that key's ID, in
+BOTH directions; when the link was dialed, only if the dialed address carries an ID and it is
+that key's ID (an ID-less dialed address admits nobody); and never the node's own key. -/
+theorem admitted_identity (own conn nodeInfo : Key) (d : Dialed)
+    (h : upgradeD own d conn nodeInfo = .ok) :
+    nodeInfo = conn ∧ conn ≠ own ∧ (∀ id, d = .outbound id → id = some conn) := by
+  have key : ∀ (pre : Bool), (if pre = true then UpVerdict.dialedMismatch
+        else if conn ≠ nodeInfo then .nodeInfoMismatch else if own = nodeInfo then .self else .ok) = .ok →
+      pre = false ∧ nodeInfo = conn ∧ conn ≠ own := by
+    intro pre hp
+    cases pre with
+    | true => simp at hp
+    | false =>
+      by_cases h2 : conn = nodeInfo
+      · by_cases h3 : own = nodeInfo
+        · simp [h2, h3] at hp
+        · exact ⟨rfl, h2.symm, by rw [h2]; exact fun e => h3 e.symm⟩
+      · simp [h2] at hp
+  cases d with
+  | inbound =>
+    obtain ⟨_, h2, h3⟩ := key false (by simpa [upgradeD] using h)
+    exact ⟨h2, h3, fun id hd => by cases hd⟩
+  | outbound id =>
+    obtain ⟨h1, h2, h3⟩ := key (decide (id ≠ some conn)) (by simpa [upgradeD] using h)
+    refine ⟨h2, h3, ?_⟩
+    intro id' hd
+    cases hd
+    simpa using h1
+
+/-- completeness: a rule-following peer (NodeInfo ID = its key's ID, dialed under that ID or
+accepted) that is not the node itself is admitted -/
+theorem honest_peer_admitted (own conn : Key) (hne : own ≠ conn) :
+    upgradeD own .inbound conn conn = .ok ∧ upgradeD own (.outbound (some conn)) conn conn = .ok := by
+  simp [upgradeD, hne]
+
+/-- the ID-bearing / inbound cases are the earlier `upgrade` -/
+theorem upgradeD_eq_upgrade (own conn nodeInfo : Key) (dialed : Option Key) :
+    upgrade own dialed conn nodeInfo =
+      upgradeD own (match dialed with | none => .inbound | some k => .outbound (some k)) conn nodeInfo := by
+  cases dialed with
+  | none => simp [upgrade, upgradeD]
+  | some k =>
+    by_cases h : k = conn
+    · subst h; simp [upgrade, upgradeD]
+    · have h' : ¬ (some k = some conn) := fun e => h (Option.some.inj e)
+      simp [upgrade, upgradeD, h, h']
+
 /-- non-vacuity: an undisturbed pair completes, each with the other's key -/
 example :
     let a : Session := ⟨0, 10, .honest 11⟩
